@@ -393,7 +393,7 @@ package trie
 //@   proof auto using walk_def(st, key, id, i)
 
 //@ func strCmpUpto
-//@   property C01 C03 C10
+//@   property C01 C03 C10 C13
 //@   requires len(b) >= 1
 //@   ensures -1 <= result && result <= 1
 //@   ensures result == 0 ==> len(a) >= len(b) - 1
@@ -431,7 +431,7 @@ package trie
 //@ spec getid(st *SlimTrie, key string) int32
 
 //@ func (*SlimTrie).GetID
-//@   property C01 C03 C10 C14
+//@   property C01 C03 C10 C13 C14
 //@   opaque wf_iprefix wf_lprefix wf_tree wf_core
 //@   requires wf_query(st) && len(key) <= 100000000
 //@   before "l := int32(8 * len(key))" use core_facts(st)
